@@ -112,7 +112,9 @@ func (sc *c09Scan) exprEvents(n ast.Node, fn string, held map[string]bool, sect 
 				switch name {
 				case "Signal", "Broadcast", "Wait", "Push", "Pop", "Size":
 					sc.emit("call:"+name, fn, held, sect, guard)
-				case "At", "Lock", "Unlock", "Sleep":
+				case "At":
+					return false // instrumentation: its arguments are not accesses of the code
+				case "Lock", "Unlock", "Sleep":
 				default:
 					if fd, ok := sc.funcs[name]; ok && depth < 3 && fd.Body != nil {
 						// same-package helper: follow it with the locks held here
@@ -486,6 +488,68 @@ func c09Facts(dir string) (map[string]int, []string, error) {
 	facts["exitingCountedUnderLock"] = tri(incFound, incOK)
 	facts["exitDecidedWithKillInOneSection"] = tri(incFound, drainOK)
 
+	// JoinAll keeps its request up inside its loop; the polling loops of SetWorkerCount look at workerKill
+	// (they yield to a JoinAll instead of waiting for workers that will never come)
+	loopFacts := func(fn string, each bool, want func(body *ast.BlockStmt) bool) int {
+		fd, ok := sc.funcs[fn]
+		if !ok || fd.Body == nil {
+			return c09Unk
+		}
+		found, all, any := false, true, false
+		ast.Inspect(fd.Body, func(n ast.Node) bool {
+			if f, ok := n.(*ast.ForStmt); ok {
+				sleeps := false
+				ast.Inspect(f.Body, func(m ast.Node) bool {
+					if c, ok := m.(*ast.CallExpr); ok {
+						if sel, ok := c.Fun.(*ast.SelectorExpr); ok && sel.Sel.Name == "Sleep" {
+							sleeps = true
+						}
+					}
+					return true
+				})
+				if sleeps {
+					found = true
+					if want(f.Body) {
+						any = true
+					} else {
+						all = false
+					}
+				}
+			}
+			return true
+		})
+		if !found {
+			return c09Unk
+		}
+		if each {
+			return tri(true, all)
+		}
+		return tri(true, any)
+	}
+	mentionsKill := func(write bool) func(body *ast.BlockStmt) bool {
+		return func(body *ast.BlockStmt) bool {
+			hit := false
+			ast.Inspect(body, func(n ast.Node) bool {
+				switch v := n.(type) {
+				case *ast.AssignStmt:
+					for _, l := range v.Lhs {
+						if sel, ok := l.(*ast.SelectorExpr); ok && sel.Sel.Name == "workerKill" && write {
+							hit = true
+						}
+					}
+				case *ast.SelectorExpr:
+					if v.Sel.Name == "workerKill" && !write {
+						hit = true
+					}
+				}
+				return true
+			})
+			return hit
+		}
+	}
+	facts["joinAllKeepsRequestUp"] = loopFacts("JoinAll", false, mentionsKill(true))
+	facts["swcLoopsYieldToJoinAll"] = loopFacts("SetWorkerCount", true, mentionsKill(false))
+
 	// every access to workerIdleMap / workerMap outside the constructor under workerMapLock
 	names := make([]string, 0, len(sc.funcs))
 	for n := range sc.funcs {
@@ -565,7 +629,8 @@ func c09Tool(args []string) int {
 	}
 	keys := []string{"signalUnderL", "pushBeforeSignal", "waitUnderL", "recheckQueueUnderL", "recheckKillUnderL", "waitGuardedByBoth",
 		"swcOneSection", "swcCountsExiting", "swcFirstBroadcastUnderL", "killTakenUnderLock", "exitingCountedUnderLock",
-		"exitDecidedWithKillInOneSection", "workerMapsUnderLock", "lockOrderAcyclic"}
+		"exitDecidedWithKillInOneSection", "workerMapsUnderLock", "lockOrderAcyclic", "joinAllKeepsRequestUp",
+		"swcLoopsYieldToJoinAll"}
 	var sb strings.Builder
 	sb.WriteString("/-! GENERATED by `harness C09 -tool skeleton` from engine/pool/threadpool.go — do not edit.\n")
 	sb.WriteString("Synchronisation skeleton facts, three-valued: 1 = established, 0 = REFUTED, 2 = not established. -/\n")
